@@ -30,17 +30,17 @@ CHECKS = {
         "technique": "deterministic simulation of garbage-collection / finalizer schedules (simulated FinalizationRegistry, model wasm, V8 reachability) over tool-generated JS bindings for seeded bridges, with memory.grow and export-throw faults",
         "level_claimed": {
             "category": "exploration",
-            "text": "Scoped claim: for the JavaScript backend (legacy and spec ABI) the lifetime edges the real tool emits keep alive everything a returned value may borrow from, under every sampled GC schedule. Bridges are generated from VERIF_SEED inside C04's grammar (next to a fixed catalogue of delicate signatures and 'negative' bridges that leave a definition-implied bound implicit), the real diplomat-tool generates the .mjs, a model wasm plays the most-borrowing Rust body each signature admits (computed independently of Diplomat and validated on every run against feature_tests' annotated ground truth), FinalizationRegistry is replaced by a simulated one so that the trace alone decides where GC points fall and which dead registration is finalized when; V8 decides reachability. Per method one directed schedule (distinct inputs, all dropped, GC, all finalizers, use) precedes the random ones. Safety oracles at every use of a held wrapper (no lender destroyed/freed, and the arena / buffer object owning a lender buffer not collected), at every export call (no dangling argument) and at every destroy/free (exactly once; a by-reference return that lives inside a lender is never destroyed). Not decided: the upper bound of 'exactly' (over-retention is allowed by the property for backends) and the Dart/Kotlin/nanobind emitters (cannot be executed here).",
+            "text": "Scoped claim: for the JavaScript backend (legacy and spec ABI) the lifetime edges the real tool emits keep alive everything a returned value may borrow from, under every sampled GC schedule. Bridges are generated from VERIF_SEED inside C04's grammar (incl. elided return lifetimes where Rust's elision rules apply; next to a fixed catalogue of delicate signatures and 'negative' bridges that leave a definition-implied bound implicit), the real diplomat-tool generates the .mjs, a model wasm plays the most-borrowing Rust body each signature admits (computed independently of Diplomat and validated on every run against feature_tests' annotated ground truth), FinalizationRegistry is replaced by a simulated one so that the trace alone decides where GC points fall and which dead registration is finalized when; V8 decides reachability. Per method one directed schedule (distinct inputs, all dropped, GC, all finalizers, use) precedes the random ones. Safety oracles at every use of a held wrapper (no lender destroyed/freed, and the arena / buffer object owning a lender buffer not collected), at every export call (no dangling argument) and at every destroy/free (exactly once; a by-reference return that lives inside a lender is never destroyed). Not decided: the upper bound of 'exactly' (over-retention is allowed by the property for backends) and the Dart/Kotlin/nanobind emitters (cannot be executed here).",
             "design_ref": "DESIGN.md §4",
         },
-        "level_note": "Trusted: V8's gc() precision (canary-monitored; imprecision can only hide a premature free), the independent outlives model, the bridge generator staying inside the accepted grammar (tool-rejected bridges are skipped and counted). The wasm side is a model because no wasm32 target is installed.",
+        "level_note": "Trusted: V8's gc() precision (canary-monitored; imprecision can only hide a premature free), the independent outlives model, the bridge generator staying inside the accepted grammar (a method the lowering gate rejects is left out and its bridge regenerated; bridges still rejected are skipped and counted). The wasm side is a model because no wasm32 target is installed.",
     },
     "C14": {
         "engine": "proc-sim",
         "technique": "deterministic simulation of the diplomat-tool process environment (entropy/clock/pid/heap/cwd/env behind an LD_PRELOAD shim, ASLR off) with seeded edit histories; byte comparison of output trees",
         "level_claimed": {
             "category": "exploration",
-            "text": "Every ambient input of a diplomat-tool process (HashMap seeds via getrandom, clocks, pid, hostname, heap layout, cwd, path spelling, environment, stale output directory) is drawn from the trace and injected through seams, so one trace is one exactly repeatable process execution. Seeded histories of edits (no-op, permute modules, permute type declarations, insert/remove an unreferenced type (also one that itself uses existing types, reuses their member names, is disabled in one backend, or is a same-named type in another module / namespace), insert/remove non-bridge items incl. same-named types) are applied to feature_tests, example, the verification bridge, a corpus in which every construct is used exactly once, and two generated bridges; after each edit all 11 backend configurations are regenerated under a fresh ambient draw and compared byte-for-byte with the reference state (D1 identical, D2 identical, D3 other types' files identical and removal restores the tree, D4 identical). Violations are minimised to the needed edits and the responsible ambient dimension. Sampling, not proof.",
+            "text": "Every ambient input of a diplomat-tool process (HashMap seeds via getrandom, clocks, pid, hostname, heap layout, cwd, path spelling, environment, stale output directory) is drawn from the trace and injected through seams, so one trace is one exactly repeatable process execution. Seeded histories of edits (no-op, permute modules, permute type declarations, insert/remove an unreferenced type (also one that itself uses existing types, reuses their member names, is disabled in one backend, or is a same-named type in another module / namespace), insert/remove non-bridge items incl. same-named types) are applied to feature_tests, example, the verification bridge, a corpus in which every construct is used exactly once, and two generated bridges; after each edit all 14 backend configurations (two ABIs of JS, settings arriving from two sources, two with -u documentation base URLs whose crate keys prefix one another) are regenerated under a fresh ambient draw and compared byte-for-byte with the reference state (D1 identical, D2 identical, D3 other types' files identical and removal restores the tree, D4 identical). Violations are minimised to the needed edits and the responsible ambient dimension. Sampling, not proof.",
             "design_ref": "DESIGN.md §6",
         },
         "level_note": "Trusted: the shim reaches the sources it claims (measured per run: getrandom call count, distinct HashMap listing orders; clock/pid/hostname are simulated but not consulted by the tool on this tree). Aggregate files (index.mjs, index.d.ts, lib.g.dart, <lib>_ext.cpp) are exempt from D3 by name. I/O errors are not simulated.",
@@ -50,7 +50,7 @@ CHECKS = {
         "technique": "deterministic simulation of ownership histories across the FFI boundary against a ledger reference model; seeded schedules + fault arms, executed natively, under Miri and (C++ layer) under ASan",
         "level_claimed": {
             "category": "exploration",
-            "text": "The foreign caller is simulated: seeded histories of create / borrow / convert / clone / bitwise-move / call / destroy operations, with injected unusual-but-legal events (Err/None arms, NULL+0 and foreign-allocated owned slices, zero-length and ZST slices, callbacks without destructor or never called, panicking Clone, stored callbacks replaced or dropped with their owner) are executed against (L1) the runtime's FFI-safe owning types and (L2) the extern \"C\" API the real proc macro generates for an all-shapes bridge. A ledger model (live set of tracked heap tokens) is compared after every operation (exactly-once, no premature drop, no leak, value integrity); Miri checks memory safety of shape-distinct traces. Sampling, not proof.",
+            "text": "The foreign caller is simulated: seeded histories of create / borrow / convert / clone / bitwise-move / call / destroy operations, with injected unusual-but-legal events (Err/None arms, NULL+0 and foreign-allocated owned slices, zero-length and ZST slices, callbacks without destructor or never called, callback cookies that are table handles (the first one 0, a null data word) instead of pointers, panicking Clone, stored callbacks replaced or dropped with their owner) are executed against (L1) the runtime's FFI-safe owning types and (L2) the extern \"C\" API the real proc macro generates for an all-shapes bridge. A ledger model (live set of tracked heap tokens) is compared after every operation (exactly-once, no premature drop, no leak, value integrity); Miri checks memory safety of shape-distinct traces. Sampling, not proof.",
             "design_ref": "DESIGN.md §3",
         },
         "level_note": "Trusted: the ledger and tracked tokens (harness code), rustc/Miri semantics, the caller model obeying the documented FFI contract. One hand-written bridge stands for 'all programs'. Allocation failure (abort) and exceptions through Rust frames are out of scope.",
